@@ -55,7 +55,8 @@ def enc(v, ctx):
         return v
     for k, cls in enumerate(ctx.datas):
         if t is cls:
-            return {"m": [[enc(a, ctx), enc(b, ctx)] for a, b in dict.items(v)], "c": DATA_TAG + k}
+            items = dict.items(v) if isinstance(v, dict) else [(a, b) for a, b in vars(v).items() if not a.startswith("__")]
+            return {"m": [[enc(a, ctx), enc(b, ctx)] for a, b in items], "c": DATA_TAG + k}
     if isinstance(v, Enum):
         return c12.enc(v, ctx.enums)
     tag = c12.CLASS_TAG.get(t)
@@ -213,7 +214,14 @@ class Ctx:
         src = ""
         for k, d in enumerate(case.get("datas", [])):
             base = f"D{d['base']}{self.sfx}" if d.get("base") is not None else "Schema"
-            src += f"class D{k}{self.sfx}({base}):\n"
+            if d.get("kind") == "dataclass":
+                # attribute-style data classes: instances are not dicts; `==` compares the fields, the hash is object's
+                base = "utype.DataClass"
+            if d.get("kind") == "deco":
+                src += "@utype.dataclass(eq=True)\n"
+                src += f"class D{k}{self.sfx}:\n"
+            else:
+                src += f"class D{k}{self.sfx}({base}):\n"
             body = ""
             if d.get("opts"):
                 g[f"O{k}"] = make_options(d["opts"])
@@ -547,7 +555,9 @@ def fields_of(parser, ctx) -> list:
 
 def env_of(ctx) -> dict:
     datas = []
-    for cls in ctx.datas:
+    for k, cls in enumerate(ctx.datas):
+        if ctx.case["datas"][k].get("kind"):
+            raise Unsupported("utype.DataClass / @utype.dataclass classes (oracle only)")
         p = cls.__parser__
         p.resolve_forward_refs()
         if p.addition_type or getattr(p, "property_fields", None) and any(True for _ in p.property_fields):
@@ -692,9 +702,10 @@ def conforms(d, r, ctx, opts, depth=0):
         if not isinstance(r, cls):
             raise Viol("type", d, _tn(r))
         decl = ctx.case["datas"][d["data"]]
+        have = r if isinstance(r, dict) else vars(r)
         for f in eff_fields(ctx.case["datas"], d["data"]):
-            if f["name"] in r:
-                x = dict.__getitem__(r, f["name"])
+            if f["name"] in have:
+                x = dict.__getitem__(have, f["name"])
                 if "default" in f:                    # declared defaults are trusted (utype hands out a copy)
                     if canon(enc(x, ctx)) == canon(f["default"]):
                         continue
@@ -2289,8 +2300,54 @@ def gen_gen_case(rng):
     return case
 
 
+def gen_unique_case(rng):
+    """`unique_items` over arrays whose parsed items are EQUAL BY `==` BUT HASHED BY IDENTITY: instances of utype.DataClass
+    subclasses and of `@utype.dataclass(eq=True)` classes (and, for contrast, Schema instances: unhashable) that only
+    become equal through the conversion of their fields (`{'x': 1}` and `{'x': '1'}`)"""
+    kind = rng.choice(["dataclass", "dataclass", "deco", "deco", None])
+    yb = rng.choice(["int", "str", "float", "bool"])
+    fields = [{"name": "x", "ty": {"t": "int"}}, {"name": "y", "ty": {"t": yb}}]
+    if rng.random() < 0.5:
+        fields[1]["default"] = E({"int": 3, "str": "3", "float": 3.0, "bool": True}[yb])
+    dd = {"fields": fields}
+    if kind:
+        dd["kind"] = kind
+    arr = rng.choice(["list", "list", "vtuple"])
+    uq = [["unique_items", PV(True)]]
+    case = {"datas": [dd], "enums": ENUMS}
+    if rng.random() < 0.6:
+        case["ty"] = {"gen": arr, "args": [{"data": 0}], "style": "typing"}
+        case["via"] = rng.choice(["field", "param"])
+        case["fcons"] = uq
+        if rng.random() < 0.3:
+            case["annotated"] = {"n": 2, "pos": rng.randrange(2), "salt": rng.randrange(2)}
+    else:
+        case["ty"] = {"gen": arr, "args": [{"data": 0}], "style": "rule", "cons": uq}
+        case["via"] = rng.choice(["transform", "field", "param", "return"])
+    spell = {1: [1, "1", 1.0, True, b"1", Decimal("1")], 2: [2, "2", 2.0, "2.0"], 0: [0, "0", False, 0.0]}
+    ysp = {"int": spell, "float": spell, "bool": {1: [True, 1, "true", "1"], 0: [False, 0, "false"]},
+           "str": {1: ["a", b"a"], 2: [3, "3"], 0: ["", b""]}}[yb]
+
+    def item(xk, yk):
+        pairs = [[E("x"), E(rng.choice(spell[xk]))]]
+        if "default" not in fields[1] or rng.random() < 0.7:
+            pairs.append([E("y"), E(rng.choice(ysp[yk]))])
+        return {"m": pairs}
+    n = rng.choice([2, 2, 3])
+    keys = [(rng.choice([0, 1, 2]), rng.choice(list(ysp))) for _ in range(n)]
+    if rng.random() < 0.65:
+        keys[rng.randrange(1, n)] = keys[0]          # two items that are equal once their fields are converted
+    if "default" in fields[1] and rng.random() < 0.3:
+        keys = [(k[0], k[1]) for k in keys]
+    items = [item(*k) for k in keys]
+    case["value"] = {"q": items, "k": rng.choice(["list", "list", "tuple"])}
+    return case
+
+
 def gen_case(rng):
     r0 = rng.random()
+    if 0.30 <= r0 < 0.325:
+        return gen_unique_case(rng)
     if r0 < 0.03:
         return gen_disc_case(rng)
     if r0 < 0.035:
